@@ -6,6 +6,7 @@ CONSTANTS
   MaxTicks = 2
   MaxBad = 1
   MaxSegIdx = 65535
+  SlotWrap = FALSE
   GenCanon = FALSE
 VIEW StView
 INVARIANTS ExactOrNothing NothingIfMissing AllSegmentsIn ForgottenAfterExpiry OversizeRefused TableConsistent AllDeliveredIfNoLoss
